@@ -75,7 +75,8 @@ fn bytes_to_str(bytes: &[u8]) -> &str {
     core::str::from_utf8(bytes).unwrap()
 }
 
-/// Parse a field name: starts with letter, continues with alphanumeric and underscores.
+/// Parse a field name: starts with letter, continues with alphanumeric and single underscores,
+/// each followed by an alphanumeric (`[A-Za-z]([_]?[A-Za-z0-9])*`).
 fn field_name<'a>(input: &mut &'a [u8]) -> ModalResult<&'a str, InputError<&'a [u8]>> {
     let start = *input;
     let mut pos = 0;
@@ -86,9 +87,18 @@ fn field_name<'a>(input: &mut &'a [u8]) -> ModalResult<&'a str, InputError<&'a [
     }
     pos += 1;
 
-    // Continue with alphanumeric and underscores
-    while pos < input.len() && (input[pos].is_ascii_alphanumeric() || input[pos] == b'_') {
-        pos += 1;
+    // Continue with alphanumerics, each optionally preceded by one underscore
+    loop {
+        if pos < input.len() && input[pos].is_ascii_alphanumeric() {
+            pos += 1;
+        } else if pos + 1 < input.len()
+            && input[pos] == b'_'
+            && input[pos + 1].is_ascii_alphanumeric()
+        {
+            pos += 2;
+        } else {
+            break;
+        }
     }
 
     let name_bytes = &start[0..pos];
